@@ -721,6 +721,99 @@ class Interp:
                 y = json.loads(json.dumps(x))
         return op["kind"], y, mx, {"_orig": x}
 
+    # measurements, levels, CLI: further doors into the intern tables -----------------
+    def op_measure(self, op, prepare, prepared=None):
+        if prepare:
+            return self._args(op, ("q", "qty"))
+        (q, mq), = prepared
+        return "meas", self.L.Measurement(q, mag_from(op["unc"])), mq, {}
+
+    def op_meas_bin(self, op, prepare, prepared=None):
+        if prepare:
+            a, ma = self.resolve(op["a"], "meas")
+            if a is ABSENT:
+                return None
+            b, mb = self.resolve(op["b"], op.get("bkind", "meas"))
+            if b is ABSENT:
+                return None
+            return [(a, ma), (b, mb)]
+        (a, ma), (b, mb) = prepared
+        f = op["f"]
+        r = {"+": lambda: a + b, "-": lambda: a - b, "*": lambda: a * b, "/": lambda: a / b,
+             "r-": lambda: b - a, "r/": lambda: b / a, "==": lambda: a == b, "<": lambda: a < b}[f]()
+        if f in ("==", "<"):
+            return "bool", bool(r), None, {}
+        return "meas", r, None, {}
+
+    def op_meas_pow(self, op, prepare, prepared=None):
+        if prepare:
+            return self._args(op, ("a", "meas"))
+        (a, ma), = prepared
+        return "meas", a ** op["n"], None, {}
+
+    def op_meas_render(self, op, prepare, prepared=None):
+        if prepare:
+            return self._args(op, ("x", "meas"))
+        (x, mx), = prepared
+        how = op["how"]
+        if how == "str":
+            t = str(x)
+        elif how == "format":
+            t = format(x, op.get("spec", "%.3f::/"))
+        elif how == "mathml":
+            t = x._repr_html_()
+        else:
+            t = self._render(x, "pretty")
+        return "text", t, None, {}
+
+    def op_logunit(self, op, prepare, prepared=None):
+        if prepare:
+            return self._args(op, ("ref", "qty"))
+        (ref, mr), = prepared
+        L = self.L
+        log = {"decibel": L.Decibel, "bel": L.Bel, "neper": L.Neper, "octave": L.Octave}[op["log"]]
+        if op.get("prefix"):
+            log = L.Prefix._by_name[op["prefix"]] * log
+        return "logunit", log[ref], None, {}
+
+    def op_level(self, op, prepare, prepared=None):
+        if prepare:
+            q, mq = self.resolve(op["q"], "qty")
+            lu, _ = self.resolve(op["lu"], "logunit")
+            if q is ABSENT or lu is ABSENT:
+                return None
+            return [(q, mq), (lu, None)]
+        (q, mq), (lu, _) = prepared
+        how = op.get("how", "level")
+        if how == "level":
+            lv = q.level(lu)
+        else:
+            lv = mag_from(op["m"]) * lu
+        return "level", lv, None, {}
+
+    def op_level_quantify(self, op, prepare, prepared=None):
+        if prepare:
+            return self._args(op, ("lv", "level"))
+        (lv, _), = prepared
+        q = lv.quantify()
+        str(lv), repr(lv.unit), lv.unit._repr_html_()
+        return "qty", q, None, {}
+
+    def op_cli(self, op, prepare, prepared=None):
+        """measured.cli.print_quantity on the str() of a quantity (stdout captured)."""
+        if prepare:
+            return self._args(op, ("q", "qty"))
+        (q, mq), = prepared
+        from measured import cli
+
+        buf = io.StringIO()
+        with contextlib.redirect_stdout(buf):
+            try:
+                cli.print_quantity(str(q))
+            except SystemExit:
+                pass
+        return "text", buf.getvalue(), None, {}
+
     def op_evict(self, op, prepare, prepared=None):
         if prepare:
             return []
